@@ -117,9 +117,9 @@ func c09Do(g *GcsEmu, op c09Op) c09Resp {
 		}
 		g.handleGcsListBucket(vCtx(), dontNeedUrls, w, q, "b")
 	}
-	r.code, r.raw, r.ctype = w.code, w.raw, w.h.Get("Content-Type")
 	r.obj = w.object()
-	for _, b := range w.bodies {
+	r.code, r.raw, r.ctype = w.code, w.payload(), w.h.Get("Content-Type")
+	for _, b := range w.all() {
 		switch x := b.(type) {
 		case *storage.Objects:
 			r.list = x
@@ -211,7 +211,7 @@ func H_C09_equiv() {
 	for i := 0; i <= k; i++ {
 		if i == restartAt {
 			// stop (or kill between requests) and start a new emulator on the same directory
-			again := vNewEmuOn(1)
+			again := vRestartOn(file)
 			c09SameStores(file, again, true, "restart")
 			la, lb := c09Do(file, c09Op{kind: 7}), c09Do(again, c09Op{kind: 7})
 			c09SameResp(la, lb, "restart-listing")
@@ -234,12 +234,12 @@ func H_C09_legacy() {
 	g := vNewEmuOn(1)
 	vPut(g, "b", "other", []byte("o"))
 	content := vNondetBytes("legacy", 1)
-	if stubFsWriteFile("/gcs/b/legacy.txt", content, 0666) != nil {
+	if vForeignFile(g, "b", "legacy.txt", content) != nil {
 		vFatal("model write")
 	}
 	w := vNewRecorder()
 	g.handleGcsMediaRequest(dontNeedUrls, w, "", "b", "legacy.txt")
-	vAssert(w.code == http.StatusOK && len(w.raw) == 1 && vBytesEq(w.raw, content), "legacy-content-served")
+	vAssert(w.code == http.StatusOK && len(w.payload()) == 1 && vBytesEq(w.payload(), content), "legacy-content-served")
 	w = vNewRecorder()
 	g.handleGcsMetadataRequest(dontNeedUrls, w, "b", "legacy.txt")
 	o := w.object()
